@@ -83,6 +83,9 @@ func vPickFields(tag string) []vField {
 	}
 	// legal names may contain a double underscore anywhere but at the start
 	f2 := vField{name: "f__2", typ: "[String!]"}
+	if vSlim && verifChoice(tag+".f2name", 2) == 1 {
+		f2.name = "ID" // names are case sensitive: a field of its own next to the Relay id
+	}
 	switch verifChoice(tag+".fields", 3) {
 	case 0:
 		return []vField{f1}
